@@ -1129,12 +1129,14 @@ _single_item.is_generator_model = True
 
 
 def _is_eos(ex, substrate):
-    """isEndOfStream seen through iteration (contracts codec.streaming::isEndOfStream[*]): a boolean, or -- for a
-    source without data yet -- a bare None first (recorded finding KF-isEndOfStream-none: None is then followed by
-    True; the loop below looks at the first item only)"""
+    """isEndOfStream seen through iteration (contracts codec.streaming::isEndOfStream[*]): a bare None for every poll on which
+    the source has no data yet, then one boolean"""
+    answer = z3.Bool('eos.answer')
     if ex.choose(ex.fresh('eos.nodata', BoolSort()), 'eos-no-data-yet'):
-        return Tup([None, True], 'list')
-    return Tup([z3.Bool('eos.answer')], 'list')
+        if ex.choose(ex.fresh('eos.nodata.again', BoolSort()), 'eos-no-data-again'):
+            return Tup([None, None, answer], 'list')
+        return Tup([None, answer], 'list')
+    return Tup([answer], 'list')
 
 
 def _iter_self(ex, env):
@@ -1153,15 +1155,23 @@ STREAM_ITER = Contract(
                    havoc_fields=['self._substrate.pos', 'self._substrate.items'],
                    iter_ensures=['self._substrate.items == iter_old(self._substrate.items) + 1',
                                  # exactly one object per decoded item: none lost, none handed out twice
-                                 'iter_values() == 1'])},
+                                 'iter_values() == 1',
+                                 # the next item is started only on a definite "not at the end": an open question
+                                 # (None: no data yet) is asked again, not read as "no" (C05: a stream closed after
+                                 # its last object ends the iteration, it does not raise from a half-started item)
+                                 'chunk is not None and chunk == False and not eosAnswer'])},
     yield_ensures=[
         # every object handed out is the one the single-item decoder just finished, in order; an underrun of the
         # end-of-stream test is reported as None
-        ('objects-in-order-or-none', 'y is None or isinstance(y, SubstrateUnderrunError) or '
-                                     'y.ordinal == self._substrate.items')],
+        # what is handed out is an underrun marker (also while the end-of-stream question is open) or the object the
+        # single-item decoder just finished, in order; never None
+        ('objects-in-order-or-underrun', '(not isinstance(y, SubstrateUnderrunError)) ==> '
+                                         '(y is not None and y.ordinal == self._substrate.items)')],
     # the iteration ends only on a definite "end of stream" answer: "no data yet" keeps it going (the next item reports
     # the underrun)
     exit_ensures=[('stops-only-at-end-of-stream', 'chunk is not None and chunk == True and eosAnswer')],
+    # (no data yet: underrun markers until the source answers; C05: end of stream signalled after the last octet stops the
+    # iteration, it does not raise)
     may_raise={'PyAsn1Error': True},
     note='SingleItemDecoder.__call__ and isEndOfStream are call reductions of their own contracts')
 STREAM_ITER.multi_value = True
